@@ -29,6 +29,11 @@ static char *contract(printer p, const char *pname, hwloc_obj_t o, unsigned long
   char *full = malloc((size_t)need + 1);
   int r = p(full, (size_t)need + 1, o, fl);
   if (r != need || strlen(full) != (size_t)need) { snprintf(key, sizeof(key), "c11.%s.length", pname); mc_violation(key, "%s :: needed %d, full call returned %d, strlen %zu", mc_case_text(), need, r, strlen(full)); }
+  /* a generous buffer must give the same length and text: a printer that under-reports whenever it truncates is consistent
+   * with itself at every size up to its own answer + 1 (seeded change C11-osdev-bracket-length) */
+  { size_t bl = (size_t)need + 65; char *big = malloc(bl); memset(big, 0x5a, bl); r = p(big, bl, o, fl); MC.transitions++;
+    if (r != need || strcmp(big, full)) { snprintf(key, sizeof(key), "c11.%s.generous", pname); mc_violation(key, "%s :: (NULL,0) says %d and gives \"%s\", a %zu-byte buffer returns %d and gives \"%s\"", mc_case_text(), need, full, bl, r, big); }
+    free(big); }
   for (int len = 0; len <= need + 1; len++) {
     char *buf = malloc(len ? (size_t)len : 1); memset(buf, 0x5a, len ? (size_t)len : 1);
     r = p(buf, (size_t)len, o, fl);
